@@ -108,12 +108,12 @@ CHECKS = [
 ]
 
 NA_ALL = {
- "C01": "not yet built", "C03": "not yet built", "C04": "not yet built", "C05": "not yet built",
+ "C04": "prefix matching (_split_c_string_for_namespace_matches: generator, nested for/else loops, sort with key, map/lambda) and the method/constructor pairing were not brought under contract in the time available; no partial claim is made (DESIGN.md section 9)",
  "C06": "needs a byte-level memory model and GLib contracts for ~7k lines of C (girparser.c, girnode.c, girmodule.c); no C verifier installed and the code cannot be built here",
- "C07": "not yet built", "C08": "not yet built", "C09": "not yet built", "C10": "not yet built", "C11": "not yet built",
- "C12": "not yet built", "C13": "not yet built", "C14": "not yet built",
+ "C10": "the annotation tokenizer and the line state machine (500 lines driven by 15 regular expressions) were not brought under contract; no partial claim is made (DESIGN.md section 9)",
+ 
  "C15": "acceptance by the typelib compiler is a statement about the girparser.c state machine (same obstacle as C06); a producer-side contract cannot express it",
- "C16": "not yet built", "C17": "not yet built", "C18": "not yet built", "C19": "not yet built", "C20": "not yet built",
+ "C16": "determinism is a 2-safety property; the commutativity / self-composition obligations were not built; no claim is made (DESIGN.md section 9)",
 }
 claimed = {c["property_id"] for c in CHECKS}
 MANIFEST = {
